@@ -31,7 +31,8 @@ def _rc(mod):
     cands = [v for k, v in vars(mod).items() if isinstance(v, dict) and not k.startswith('__') and all(isinstance(kk, tuple) for kk in v)]
     return cands[0] if len(cands) == 1 else {}
 RCW = _rc(fdm)
-FUNCS = {'exp': np.exp, 'sinpoly': lambda t: np.sin(t) + t ** 3, 'rat': lambda t: t * t / (1 + t * t)}
+FUNCS = {'exp': np.exp, 'sinpoly': lambda t: np.sin(t) + t ** 3, 'rat': lambda t: t * t / (1 + t * t),
+         'sumexp': lambda t: np.sum(np.exp(0.5 * t)) + np.prod(np.sin(t))}
 def hx(v):
     return '%%x' %% struct.unpack('<Q', struct.pack('<d', float(v)))[0]
 INITIAL = {k: np.array(v, copy=True) for k, v in RCW.items()}    # the cache as a fresh interpreter has it
@@ -40,6 +41,12 @@ for line in sys.stdin:
     RCW.clear()
     RCW.update({k: np.array(v, copy=True) for k, v in INITIAL.items()})
     kw = {'step_ratio': req['step_ratio']} if req.get('step_ratio') else {}
+    if req.get('gen'):
+        from numdifftools.step_generators import MinStepGenerator, MaxStepGenerator
+        o = dict(req['gen']['opts'])
+        if isinstance(o.get('base_step'), list):
+            o['base_step'] = np.array(o['base_step'])
+        kw = {'step': (MinStepGenerator if req['gen']['cls'] == 'min' else MaxStepGenerator)(**o)}
     d = getattr(nd, req['cls'])(FUNCS[req['f']], n=req['n'], method=req['method'], order=req['order'], full_output=True, **kw) if req['cls'] == 'Derivative' \
         else getattr(nd, req['cls'])(FUNCS[req['f']], method=req['method'], order=req['order'], full_output=True, **kw)
     val, info = d(np.asarray(req['x']))
@@ -217,7 +224,8 @@ def run(ctx):
     ctx.search['rule'] = ('random sequences (length <= 12) of construct / call at x / set n, order, real-step method / share a step generator / '
                           'clear the rule cache over a pool of <= 5 objects; every call result (value, error_estimate, final_step, index) is '
                           'compared bit for bit with the evaluation of the same (function, point, configuration) in a separate interpreter with an '
-                          'empty cache and brand-new objects; plus 16 threads on disjoint objects against the sequential results; '
+                          'empty cache and brand-new objects; plus histories in which one user-created step generator (default / explicit scale and base step, '
+                          'scalar or array-valued) serves 2-3 Derivative or Hessdiag objects of different (method, n, order) at several points; plus 16 threads on disjoint objects against the sequential results; '
                           'distinct = distinct (sequence, position)')
     if requests:
         fresh = fresh_eval(requests)
@@ -226,6 +234,7 @@ def run(ctx):
                 ctx.violation('a call result depends on history: it differs from a fresh-interpreter evaluation of the same '
                               '(function, point, configuration)', request=req, in_history=got, fresh=want)
                 break
+    shared_generator_histories(ctx, nd, rng)
     # threads
     nthreads = 16
     cfgs = []
@@ -265,6 +274,75 @@ def run(ctx):
     RC.clear()
     ctx.assumptions.append('thread interleavings are modelled at the granularity of the interpreter lock (atomic dict get / set); '
                            'numpy / LAPACK internals are outside the model; warnings.catch_warnings in dea3 is process-global (affects warnings only)')
+
+
+def shared_generator_histories(ctx, nd, rng):
+    """one user-created step generator (default or explicit scale / base step, scalar or array-valued base step) serves several
+    objects with different (method, n, order) at several points; every call against a fresh interpreter with a brand-new equal generator"""
+    from numdifftools.step_generators import MinStepGenerator, MaxStepGenerator
+    fsum = lambda t: np.sum(np.exp(0.5 * t)) + np.prod(np.sin(t))
+    requests, results = [], []
+    for seq_i in range(ctx.budget(40, 400)):
+        gcls = rng.choice(['min', 'min', 'max'])
+        dim = rng.choice([1, 2, 3])
+        opts = {}
+        bs = rng.choice(['none', 'none', 'scalar', 'array'])
+        if bs == 'scalar':
+            opts['base_step'] = rng.choice([1e-3, 0.01, 0.25]) if gcls == 'min' else rng.choice([0.5, 1.0, 2.0])
+        elif bs == 'array':
+            opts['base_step'] = [rng.choice([1e-3, 0.01, 0.02]) if gcls == 'min' else rng.choice([0.5, 1.0, 2.0]) for _ in range(dim)]
+        if rng.random() < 0.4:
+            opts['step_ratio'] = rng.choice([2.0, 1.6, 3.0])
+        if rng.random() < 0.3:
+            opts['num_steps'] = rng.choice([6, 9, 12])
+        if rng.random() < 0.2 and gcls == 'min':
+            opts['scale'] = rng.choice([2.0, 3.0])
+        live = dict(opts)
+        user_array = None
+        if bs == 'array':
+            user_array = np.array(opts['base_step'])
+            live['base_step'] = user_array
+        gen = (MinStepGenerator if gcls == 'min' else MaxStepGenerator)(**live)
+        family = rng.choice(['Derivative', 'Derivative', 'Hessdiag'])
+        objs = []
+        for _ in range(rng.randint(2, 3)):
+            m = rng.choice(['central', 'forward', 'backward', 'complex'] if family == 'Derivative' else ['central', 'forward', 'backward'])
+            n = rng.randint(1, 3) if family == 'Derivative' else 2
+            o = rng.choice([1, 2, 3, 4, 6]) if family == 'Derivative' else rng.choice([2, 4, 6])
+            if rng.random() < 0.5 and objs:
+                m, n = objs[0]['method'], objs[0]['n']          # same method and n, another order
+            fname = rng.choice(['exp', 'sinpoly', 'rat']) if family == 'Derivative' else 'sumexp'
+            f = FUNCS[fname] if family == 'Derivative' else fsum
+            d = nd.Derivative(f, n=n, method=m, order=o, step=gen, full_output=True) if family == 'Derivative' else \
+                nd.Hessdiag(f, method=m, order=o, step=gen, full_output=True)
+            objs.append({'d': d, 'f': fname, 'n': n, 'method': m, 'order': o})
+        for call_i in range(rng.randint(4, 8)):
+            cfg = rng.choice(objs)
+            x = [rng.choice([0.5, 1.25, 2.5, 7.0, -3.5, rng.uniform(1.5, 9)]) for _ in range(dim)]
+            xa = np.asarray(x if (dim > 1 or family == 'Hessdiag' or bs == 'array') else x[0])
+            try:
+                with warnings.catch_warnings():
+                    warnings.simplefilter('ignore')
+                    val, info = cfg['d'](xa)
+            except Exception as ex:
+                ctx.violation('a call with a shared user step generator raised %r' % ex, generator=[gcls, opts], config=[cfg['method'], cfg['n'], cfg['order']],
+                              x=np.asarray(xa).tolist(), call=call_i)
+                break
+            requests.append({'cls': family, 'f': cfg['f'], 'n': cfg['n'], 'method': cfg['method'], 'order': cfg['order'], 'x': np.asarray(xa).tolist(),
+                             'step_ratio': None, 'gen': {'cls': gcls, 'opts': opts}, 'history': [seq_i, call_i]})
+            results.append(pack(val, info))
+            ctx.tried(('shared-generator', seq_i, call_i))
+        if user_array is not None and not np.array_equal(user_array, np.array(opts['base_step'])):
+            ctx.violation("the caller's base_step array was modified by calls of objects using the generator", generator=[gcls, opts],
+                          now=user_array.tolist())
+    if requests:
+        fresh = fresh_eval(requests)
+        for req, got, want in zip(requests, results, fresh):
+            if got != want:
+                ctx.violation('a call result depends on history (shared user step generator): it differs from a fresh-interpreter evaluation '
+                              'of the same (function, point, configuration) with a brand-new generator built from the same options',
+                              request=req, in_history=got, fresh=want)
+                break
 
 
 def replay(ctx, path):
